@@ -19,7 +19,7 @@ RULE = ("(i) every byte string of length <=3 (thorough <=4) over a 12-symbol JSO
         "alphabet offered as the document; (iii) every single node fault (17 junk values, deletion, duplication under a sibling key) of 3 "
         "valid base documents (thorough: pairs on one base) (30 junk values incl. enums of floats/booleans/lists, inf/nan defaults, references urlparse refuses; 4 bases) and cyclic $ref shapes; (iv) every document of the other checks' spaces "
         "(generate only); seam: the real typer CLI via CliRunner for (i)-(iii); oracle: no escaping exception, termination, exit "
-        "status <=> error-level diagnostics (and --fail-on-warning), no output when the document is rejected")
+        "status <=> error-level diagnostics (and --fail-on-warning), no output when the document is rejected; (v) YAML-native scalars (dates, timestamps, binary, sets, inf/nan) at 12 value slots, version strings of every JSON shape, YAML alias graphs (cyclic / re-used / deep)")
 FLOOR = 0.3
 ASSUMPTIONS = ["typer's CliRunner reproduces the command's behaviour", "a per-case watchdog (30 s vs ~15 ms typical) detects hangs; a timeout is re-run alone with a tenfold limit by the confirmation step"]
 
